@@ -771,17 +771,28 @@ func checkWriteVersion(r *core.Run, p *core.Program, a *analysis, g *Grammar, si
 	} else {
 		info := dec.Pkg.TypesInfo
 		okSig := false
-		ast.Inspect(dec.Decl.Body, func(n ast.Node) bool {
-			ifs, ok := n.(*ast.IfStmt)
-			if !ok {
-				return true
+		// the header may be read and checked in an unexported helper method of the decoder
+		bodies := []ast.Node{dec.Decl.Body}
+		inspectCalls(info, dec.Decl.Body, func(call *ast.CallExpr, cal *types.Func) {
+			if cal != nil && !cal.Exported() && cal.Pkg() == dec.Pkg.Types && recvNamed(cal) != nil && recvNamed(cal) == recvNamed(dec.Obj) {
+				if hd := p.FuncDecl(cal); hd != nil && hd.Body != nil {
+					bodies = append(bodies, hd.Body)
+				}
 			}
-			be, ok := stripParens(ifs.Cond).(*ast.BinaryExpr)
-			if ok && be.Op == token.NEQ && (objOf(info, stripConv(info, be.X)) == sigObj || objOf(info, stripConv(info, be.Y)) == sigObj) && a.alwaysPanics(info, ifs.Body.List) {
-				okSig = true
-			}
-			return true
 		})
+		for _, body := range bodies {
+			ast.Inspect(body, func(n ast.Node) bool {
+				ifs, ok := n.(*ast.IfStmt)
+				if !ok {
+					return true
+				}
+				be, ok := stripParens(ifs.Cond).(*ast.BinaryExpr)
+				if ok && be.Op == token.NEQ && (objOf(info, stripConv(info, be.X)) == sigObj || objOf(info, stripConv(info, be.Y)) == sigObj) && a.alwaysPanics(info, ifs.Body.List) {
+					okSig = true
+				}
+				return true
+			})
+		}
 		r.Check("C27.write-version", dec.Name()+"|checks-signature", dec.Decl.Pos(), okSig, "the CBE decoder does not reject a first byte different from CBESignatureByte")
 	}
 	cteEnc := findFn(p, "cte", "EncoderEventReceiver.OnBeginDocument")
@@ -813,7 +824,19 @@ func checkWriteVersion(r *core.Run, p *core.Program, a *analysis, g *Grammar, si
 func ifChainAsByteSwitch(info *types.Info, list []ast.Stmt) *ast.SwitchStmt {
 	cases, ok := orderedCases(list)
 	if !ok || len(cases) < 2 {
-		return nil
+		// the chain may be one statement among others (a trailing `return` of named results)
+		ok = false
+		for _, st := range list {
+			if ifs, isIf := st.(*ast.IfStmt); isIf && ifs.Else != nil {
+				if cs, ok2 := orderedCases([]ast.Stmt{ifs}); ok2 && len(cs) >= 2 {
+					cases, ok = cs, true
+					break
+				}
+			}
+		}
+		if !ok {
+			return nil
+		}
 	}
 	var tag ast.Expr
 	sw := &ast.SwitchStmt{Switch: list[0].Pos(), Body: &ast.BlockStmt{Lbrace: list[0].Pos()}}
